@@ -1,0 +1,20 @@
+//go:build verif
+
+// C06 (visibility gate of the tx-read path); only compiled with -tags verif.
+package store
+
+// The gate every read of a transaction by id goes through: it hands out a reader only for a transaction that is
+// precommitted, and - unless the caller explicitly allows precommitted ones - committed. It runs under the commit-state
+// lock and does not move the frontiers.
+//@ func (*ImmuStore).appendableReaderForTx
+//@   ensures c06_gate_pre: r1 == nil ==> txID <= s.inmemPrecommittedTxID
+//@   ensures c06_gate: r1 == nil && !allowPrecommitted ==> txID <= s.committedTxID
+//@   ensures c06_cid: s.committedTxID == old(s.committedTxID)
+//@   ensures c06_pid: s.inmemPrecommittedTxID == old(s.inmemPrecommittedTxID)
+//@   assigns internal
+
+// The public readers by transaction id: a nil error means the transaction was committed when the gate was passed
+// (ReadTx, ReadTxEntry never allow precommitted transactions; ReadTxHeader and readTx only when the caller says so).
+//@ func (*ImmuStore).ReadTx
+//@   inline
+//@   ensures c06_committed: r0 == nil ==> txID <= s.committedTxID
